@@ -111,6 +111,7 @@ cnb = z3.Function('cnb', Int, Int, ISeq)            # simple graph g: the closed
 nbj = z3.Function('nbj', Int, Int, Int)             # position of v's closed neighbourhood in the duplicate-free list of neighbourhoods
 nbv = z3.Function('nbv', Int, Int, Int)             # a vertex whose closed neighbourhood is the j-th listed one
 isorted = z3.Function('isorted', ISeq, ISeq)        # sorted(X): a function of the list (no schema needed where only its identity matters)
+aps = z3.Function('aps', Int, Int, CSeq)               # the arithmetic progressions of length k inside 1..N, in the order _vdw_ap_generator yields them
 pairlits = z3.Function('pairlits', Int, ISeq, ISeq)   # [cvar(g, S[p], S[q]) for p < q] in combinations(S, 2) order
 pl1 = z3.Function('pl1', ISeq, Int, Int)              # position p of the t-th pair of combinations(S, 2)
 pl2 = z3.Function('pl2', ISeq, Int, Int)              # position q of the t-th pair
@@ -211,7 +212,7 @@ def cmp_op(op, lhs, rhs):
                  z3.If(op == S('<'), lhs < rhs, z3.If(op == S('>'), lhs > rhs, z3.BoolVal(False))))))
 
 
-FUNCS = dict(pairlits=pairlits, pl1=pl1, pl2=pl2, sqr=sqr, isqf=isqf, isorted=isorted, cnb=cnb, nbj=nbj, nbv=nbv, pvar=pvar, lnbrs=lnbrs, gadj=gadj, degsum=degsum, cvar=cvar, tlen=tlen, tcoef=tcoef, tlit=tlit, tunit=tunit, tnegc=tnegc, tset=tset, wsum=wsum, thaszero=thaszero,
+FUNCS = dict(aps=aps, pairlits=pairlits, pl1=pl1, pl2=pl2, sqr=sqr, isqf=isqf, isorted=isorted, cnb=cnb, nbj=nbj, nbv=nbv, pvar=pvar, lnbrs=lnbrs, gadj=gadj, degsum=degsum, cvar=cvar, tlen=tlen, tcoef=tcoef, tlit=tlit, tunit=tunit, tnegc=tnegc, tset=tset, wsum=wsum, thaszero=thaszero,
              tmaxabs=tmaxabs, tnonneg=tnonneg, tmpos=tmpos, tzpos=tzpos, mkcon=mkcon, olen=olen, osnoc=osnoc, otake=otake, holds=holds,
              osat=osat, oappc=oappc, omaxabs=omaxabs, ohaszero=ohaszero, onormal=onormal,
              ilen=ilen, iget=iget, inil=inil, isnoc=isnoc, iapp=iapp, ineg=ineg, haszero=haszero,
